@@ -63,6 +63,8 @@ class ExprMixin:
 
     def coerce(self, v, sort: Sort, node=None):
         """Coerce `v` to `sort` where python would let the value through."""
+        if isinstance(v, PyTuple) and not v.items and isinstance(sort, ListSort):
+            return list_empty(sort.elem)
         if isinstance(v, Val):
             if v.sort == sort:
                 return v
@@ -275,7 +277,7 @@ class ExprMixin:
             hint = self.expected_sort
             if isinstance(hint, ListSort):
                 return [(st, list_empty(hint.elem))]
-            raise Unsupported(node, "empty list literal without sort hint (annotate via contract.local)")
+            return [(st, PyTuple(()))]     # untyped empty literal: takes its sort where it is used
         outs = self.ev_Tuple(node, st)
         res = []
         for s, tup in outs:
